@@ -11,7 +11,8 @@
    that the pipe keeps the order of writes are assumptions, named in the evidence. *)
 From Coq Require Import NArith List Bool.
 From AV Require Import Generated.Table Generated.Locking Spec.Atomicity
-  Model.Base Model.Utf8parse Model.Parser Model.Strip Model.Locking Proofs.Locking.
+  Model.Base Model.Utf8parse Model.Parser Model.Strip Model.Locking Proofs.Locking
+  Spec.Io Model.Stream Generated.StreamFn Proofs.StreamGen Generated.AutoFn Proofs.AutoGen.
 Import ListNotations.
 
 (* every modelled call (write, write_vectored, flush, write_all, write_fmt with any
@@ -118,3 +119,47 @@ Theorem c19_example_unlocked_interleaves :
     lk_out final = [(0%nat, LkWA [97%N]); (1%nat, LkWA [120%N]); (0%nat, LkWA [98%N]); (1%nat, LkWA [121%N])] /\
     forall acqs, ~ at_serial (map (map lk_inner_of) ex_trs) acqs (lk_out final).
 Proof. exact ex_unlocked_interleaves. Qed.
+
+(* the lock discipline read off the Rust code itself: the five Write methods of AutoStream and of
+   StripStream TRANSLATED a second time (Generated/AutoFn.v `gl_*`, tools/gen_fn_auto.py; regenerated on
+   every run) over a raw stream that logs its lock events -- `as_locked_write()` logs an Acquire and
+   hands out the guard, the guard's destructor at the end of its temporary scope logs a Release, both
+   with the length of the inner writer's call history at that moment.  For every method, either arm,
+   any stream state, any script of the inner writer: the answer is that of the translation without
+   the log (the one C08's hand model is proved equal to) and the log grows by [lock_once]: ONE
+   Acquire at the length of the history before the call, ONE Release at its length after the call --
+   every inner call of the operation lies between them, none outside.
+   [las_with log a] = the stream value a whose raw stream carries the log. *)
+Theorem c19_translated_ops_lock_once :
+  forall cf log a o,
+  gl_as_op cf (las_with log a) o =
+  match g_as_op cf a o with
+  | Some (a1, r) => Some (las_with (lock_once log (as_writer a) (as_writer a1)) a1, r)
+  | None => None
+  end.
+Proof. exact translated_ops_lock_once. Qed.
+
+(* the same, read through the hand model of the stream (Model/Stream.v auto_op) *)
+Theorem c19_translated_ops_lock_once_model :
+  forall cf log m s w o,
+  gl_as_op cf (las_with log (as_of m s w)) o =
+  match auto_op (ac_wv_all cf) m s w o with
+  | Some (s1, w1, r) => Some (las_with (lock_once log w w1) (as_of m s1 w1), r)
+  | None => None
+  end.
+Proof. exact translated_ops_lock_once_model. Qed.
+
+(* StripStream driven directly (anstream::StripStream is public): the four translated methods and the
+   pinned write_vectored *)
+Theorem c19_translated_strip_lock_once :
+  forall x,
+  (forall buf, gl_ss_write x buf =
+     match g_ss_write (lss_erase x) buf with Some (x1, r) => Some (lss_locked x x1, r) | None => None end) /\
+  (forall buf, gl_ss_write_all x buf =
+     match g_ss_write_all (lss_erase x) buf with Some (x1, r) => Some (lss_locked x x1, r) | None => None end) /\
+  (forall frags, gl_ss_write_fmt x frags =
+     match g_ss_write_fmt (lss_erase x) frags with Some (x1, r) => Some (lss_locked x x1, r) | None => None end) /\
+  (forall bufs, gl_ss_write_vectored x bufs =
+     match g_ss_write_vectored (lss_erase x) bufs with Some (x1, r) => Some (lss_locked x x1, r) | None => None end) /\
+  gl_ss_flush x = (lss_locked x (fst (g_ss_flush (lss_erase x))), snd (g_ss_flush (lss_erase x))).
+Proof. exact translated_strip_lock_once. Qed.
